@@ -1,14 +1,39 @@
-"""C03 — encrypted envelope layout and key schedule."""
+"""C03 — the encrypted message envelope follows the MTProto 1.0 layout and key schedule."""
 import vlib
 
 SUB = "c03"
 MODULES = ["Mtv.Props.C03"]
-THEOREMS = []
-RULE = "tbd"
+THEOREMS = [
+    "Mtv.Envelope.kdf_schedule",
+    "Mtv.Envelope.sealClient_layout",
+    "Mtv.Envelope.sealClient_is_spec_sealing",
+    "Mtv.Envelope.serverOpen_sealClient",
+    "Mtv.Envelope.openClient_serverSeal",
+    "Mtv.Envelope.unenc_layout",
+    "Mtv.Envelope.unenc_roundtrip",
+]
+RULE = ("operations: c03.seal = real Encrypted.Serialize (random 256-byte keys, salt/session/msg_id/seq_no at their "
+        "extremes and random, ack on and off, body lengths covering every residue mod 16 at the magnitudes 0, 16, 32, 240, "
+        "1008, 4080, 16368, 65516..65536 in the quick tier; every length 0..4096, 1200 samples up to 2^16, 2^17..2^20 in the "
+        "thorough tier), judged by an independent MTProto 1.0 server written in Go (direction 0: key id, key schedule, IGE, "
+        "declared length, fewer than 16 padding bytes, msg_key, recovered fields); c03.open = a packet sealed by that server "
+        "(direction 8, 0-15 random padding bytes) given to the real DeserializeEncrypted, which must return exactly the sealed "
+        "fields; c03.kdf/msgkey/keyid = generateAESIGE (both offsets; key lengths around 128/136), MessageKey, AuthKeyHash "
+        "against the specification; c03.userial/urt/udeser = Unencrypted.Serialize / DeserializeUnencrypted. distinct = "
+        "distinct operation lines; every line is also run through the Lean model (executable SHA-1/AES/IGE) and compared")
 
 
 def run(ctx):
-    return vlib.generic_check(ctx, SUB, MODULES, THEOREMS, RULE)
+    ctx.assumptions += [
+        "SHA-1 and AES-256-IGE are parameters of the theorems (hypotheses Prims.Ok: digest length 20; IGE length-preserving and "
+        "each direction inverting the other on non-empty block-aligned input under a 32-byte key and IV); C05 proves the IGE "
+        "clauses for the model of the repository's loop, crypto/sha1 and crypto/aes are standard library",
+        "the specification side (Spec.lean, and the Go oracle in x_envelope.go) was written from the MTProto 1.0 description; "
+        "the two are compared with each other on every c03.open line",
+        "the theorems speak about 256-byte auth keys (generateAESIGE panics below 128+x bytes; the model has that panic)",
+    ]
+    return vlib.generic_check(ctx, SUB, MODULES, THEOREMS, RULE,
+                              extra_trusted=["the Go specification server of harness/cmd/vh/x_envelope.go (crypto/sha1, crypto/aes, own IGE loop)"])
 
 
 def replay(ctx, path):
